@@ -30,7 +30,7 @@ from .. import presence_driver as pd
 
 SPEC_DIR = os.path.join(core.SPECS, 'node')
 PROP = 'C17'
-CLAUSE_INV = ['Ephemeral', 'NoForeign', 'Waits', 'OwnOnly', 'RegisteredOwned', 'NoError', 'FireBound']
+CLAUSE_INV = ['Ephemeral', 'NoForeign', 'Waits', 'OwnOnly', 'RegisteredOwned', 'NoError']
 ACTIONS = ['Submit', 'Finish', 'Begin', 'Call', 'End', 'Expire', 'Crash', 'Reap', 'Restart']
 
 RULE = ('a schedule counts when, in its recorded execution, a get of the presence service '
@@ -73,7 +73,7 @@ def _tla(v):
     raise TypeError(v)
 
 
-def mc_files(scn, tag, max_expire, defects, invariants, max_pad=0, max_fire=2):
+def mc_files(scn, tag, max_expire, defects, invariants, max_pad=0):
     mod = 'MC_Presence_%s_%s' % (scn['name'], tag)
     text = ('---- MODULE %s ----\nEXTENDS Presence\nScnHosts == %s\nScnConts == %s\n'
             'ScnInst == %s\nScnPaths == %s\n====\n' % (
@@ -81,7 +81,7 @@ def mc_files(scn, tag, max_expire, defects, invariants, max_pad=0, max_fire=2):
     percont = '{' + ', '.join(str(2 + i) for i in range(len(scn['endpoints']))) + '}'
     cfg = ['INIT Init', 'NEXT Next', 'CHECK_DEADLOCK FALSE', 'CONSTANTS',
            ' Hosts <- ScnHosts', ' Conts <- ScnConts', ' InstOf <- ScnInst', ' PathsOf <- ScnPaths',
-           ' PerCont = %s' % percont, ' MaxExpire = %d' % max_expire, ' MaxFire = %d' % max_fire,
+           ' PerCont = %s' % percont, ' MaxExpire = %d' % max_expire, ' SymFirst = %s' % ('FALSE' if max_pad else 'TRUE'),
            ' MaxKill = 0',
            ' MaxPad = %d' % max_pad,
            ' Defects = {%s}' % ', '.join('"%s"' % d for d in defects)]
